@@ -44,6 +44,7 @@ var extraAnchors = map[string][]string{
 	"C11": {pkgServer + "\tMetaCDC\tPause", pkgServer + "\tMetaCDC\tResume", pkgServer + "\tMetaCDC\tDelete"},
 	"C05": {pkgServer + "\tMetaCDC\treplicateMsgsFunc"},
 	"C01": {pkgReader + "\treplicateChannelManager\tStartReadCollection", pkgReader + "\treplicateChannelManager\tstartReadChannel", pkgReader + "\treplicateChannelHandler\tgetPartitionID", pkgReader + "\treplicateChannelHandler\tgetCollectionTargetInfo"},
+	"C03": {pkgServer + "\tMetaCDC\tstartInternal"},
 	"C04": {pkgReader + "\tCollectionReader\tStartRead"},
 	"C09": {pkgWriter + "\tChannelWriter\tWaitObjReady", pkgWriter + "\tChannelWriter\tWaitDatabaseReady", pkgWriter + "\tChannelWriter\tWaitCollectionReady", pkgWriter + "\tChannelWriter\tWaitPartitionReady", pkgWriter + "\tChannelWriter\tWaitObjReadyForAPIEvent", pkgWriter + "\tChannelWriter\tUpdateNameMappings"},
 	"C20": {pkgWriter + "\tChannelWriter\tWaitObjReady", pkgWriter + "\tChannelWriter\tWaitPartitionReady", pkgWriter + "\tChannelWriter\tWaitCollectionReady", pkgWriter + "\t\tUpdateMsgBase"},
